@@ -70,7 +70,31 @@ def body(c):
         doc["ops"][0]["vars"] = defs
         if defs:
             doc["ops"][0]["name"] = "Q"
-        rand_cases.append({"id": 0, "flavour": "static", "doc": doc, "opIndex": 1, "vars": supplied, "world": rng.choice(worlds), "schedule": []})
+        op_index = 1
+        r = rng.random()
+        if r < 0.15:
+            # several operations in one document: the request selects one by name
+            doc["ops"][0]["name"] = "Q"
+            other = {"name": "Other", "ty": "query", "vars": [], "dirs": [], "sels": [
+                {"k": "field", "name": "__typename", "alias": "", "args": [], "dirs": [], "sels": [], "nid": 9000, "line": 0, "col": 0}]}
+            if rng.random() < 0.5:
+                doc["ops"].insert(0, other)
+                op_index = 2
+            else:
+                doc["ops"].append(other)
+        elif r < 0.3 and doc["frags"]:
+            # the same named fragment spread a second time (CollectFields visits a fragment once per selection set)
+            fr = rng.choice(doc["frags"])
+            def dup(sels):
+                for i, x in enumerate(sels):
+                    if x["k"] == "spread" and x["name"] == fr["name"]:
+                        sels.insert(i + 1, json.loads(json.dumps(x)))
+                        return True
+                    if x["k"] != "spread" and dup(x.get("sels", [])):
+                        return True
+                return False
+            dup(doc["ops"][0]["sels"]) or any(dup(f["sels"]) for f in doc["frags"] if f["name"] != fr["name"])
+        rand_cases.append({"id": 0, "flavour": "static", "doc": doc, "opIndex": op_index, "vars": supplied, "world": rng.choice(worlds), "schedule": []})
     case_cap = 6000 if c.quick else 200000
     if len(cases) > case_cap:
         cases = rng.sample(cases, case_cap)
